@@ -157,37 +157,47 @@ func checkC14(c *Ctx) {
 			lineF, curF = "compLine", "compCursor"
 		}
 		okMove, okCut, okIns, okOrder := false, false, false, false
-		var mv, ct, ins ssa.Instruction
-		for _, call := range callsTo(f, false, "(*core.Cursor).Move") {
-			args := call.Common().Args
-			if isFieldLoad(args[0], compT, curF) && negLenOfField(args[1], compT, "prefix") {
-				okMove, mv = true, call
+		// the three statements are looked for in f, or in an unexported helper f calls with the
+		// line and the cursor as arguments (the helper's parameters then stand for those)
+		for _, hv := range hostViews(f) {
+			hv := hv
+			if okMove && okCut && okIns && okOrder {
+				break
 			}
-		}
-		for _, call := range callsTo(f, false, "(*core.Line).Cut") {
-			args := call.Common().Args
-			if !isFieldLoad(args[0], compT, lineF) {
-				continue
-			}
-			// (cursor.Pos(), cursor.Pos()+len(prefix))
-			isPos := func(v ssa.Value) bool {
-				pc, ok := v.(*ssa.Call)
-				return ok && calleeName(pc) == "(*core.Cursor).Pos" && isFieldLoad(pc.Call.Args[0], compT, curF)
-			}
-			if isPos(args[1]) {
-				if bo, ok := args[2].(*ssa.BinOp); ok && bo.Op == token.ADD && isPos(bo.X) && lenOfField(bo.Y, compT, "prefix") {
-					okCut, ct = true, call
+			vMove, vCut, vIns := false, false, false
+			var mv, ct, ins ssa.Instruction
+			for _, call := range callsTo(hv.fn, false, "(*core.Cursor).Move") {
+				args := call.Common().Args
+				if isFieldLoad(hv.val(args[0]), compT, curF) && negLenOfField(args[1], compT, "prefix") {
+					vMove, mv = true, call
 				}
 			}
-		}
-		for _, call := range callsTo(f, false, "(*core.Cursor).InsertAt") {
-			args := call.Common().Args
-			if isFieldLoad(args[0], compT, curF) && isFieldLoad(args[1], compT, "inserted") {
-				okIns, ins = true, call
+			for _, call := range callsTo(hv.fn, false, "(*core.Line).Cut") {
+				args := call.Common().Args
+				if !isFieldLoad(hv.val(args[0]), compT, lineF) {
+					continue
+				}
+				// (cursor.Pos(), cursor.Pos()+len(prefix))
+				isPos := func(v ssa.Value) bool {
+					pc, ok := v.(*ssa.Call)
+					return ok && calleeName(pc) == "(*core.Cursor).Pos" && isFieldLoad(hv.val(pc.Call.Args[0]), compT, curF)
+				}
+				if isPos(args[1]) {
+					if bo, ok := args[2].(*ssa.BinOp); ok && bo.Op == token.ADD && isPos(bo.X) && lenOfField(bo.Y, compT, "prefix") {
+						vCut, ct = true, call
+					}
+				}
 			}
-		}
-		if mv != nil && ct != nil && ins != nil {
-			okOrder = instrDominates(mv, ct) && instrDominates(ct, ins)
+			for _, call := range callsTo(hv.fn, false, "(*core.Cursor).InsertAt") {
+				args := call.Common().Args
+				if isFieldLoad(hv.val(args[0]), compT, curF) && isFieldLoad(args[1], compT, "inserted") {
+					vIns, ins = true, call
+				}
+			}
+			if hv.at == nil || (vMove && vCut && vIns) {
+				okMove, okCut, okIns = vMove, vCut, vIns
+				okOrder = mv != nil && ct != nil && ins != nil && instrDominates(mv, ct) && instrDominates(ct, ins)
+			}
 		}
 		r.Check(okMove && okCut && okIns && okOrder, "C14.replace-prefix", fnName(f)+":move-cut-insert", p.Pos(f.Pos()), "Move(-len(prefix)); Cut(pos, pos+len(prefix)); InsertAt(inserted)",
 			fmt.Sprintf("%s does not replace exactly the prefix (Move(-len(prefix)): %v, Cut(pos,pos+len(prefix)): %v, InsertAt(inserted): %v, in order: %v): text before the word or after the cursor can be destroyed", fnName(f), okMove, okCut, okIns, okOrder))
